@@ -18,7 +18,7 @@ from vrf.oracle import validate
 from vrf.symx import sym
 
 B, Q = tys.Bool, tys.Qubit
-N_STEPS_KINDS = 14
+N_STEPS_KINDS = 15
 
 
 @native
@@ -93,10 +93,10 @@ def step(f, m, decl, g, kind, tag, bools, qubit, nodes):
     elif kind == 10:   # tail loop
         with f.add_tail_loop([_pick(tag + ".w", bools)], [qubit]) as tl:
             bi, qq = tl.inputs()
-            brk = tl.add_op(ops.Tag(1, tys.Sum([[B], [B]])), bi)
+            brk = tl.add_op(ops.Tag(1, tys.Sum([[B], [B, B]])), bi, bi)   # break row longer than continue row
             tl.set_loop_outputs(brk, qq)
         bools.append(tl[0])
-        qubit = tl[1]
+        *_, qubit = tl                                                   # unpack: the linear value is the last output
         nodes.append(tl.parent_node)
     elif kind == 11:   # CFG with a dominator edge
         with f.add_cfg(_pick(tag + ".w", bools), qubit) as cfg:
@@ -111,6 +111,13 @@ def step(f, m, decl, g, kind, tag, bools, qubit, nodes):
             cfg.branch_exit(blk[0])
         qubit = cfg[0]
         nodes.append(cfg.parent_node)
+    elif kind == 14:   # call of a row-polymorphic function at arity 2 (instantiated arity != polymorphic body's)
+        rowp = m.declare_function(f"rowpoly_{tag}", tys.PolyFuncType([tys.ListParam(tys.TypeTypeParam(tys.TypeBound.Any))],
+                                                                      tys.FunctionType([tys.RowVariable(0, tys.TypeBound.Any)], [tys.RowVariable(0, tys.TypeBound.Any)])))
+        n = f.call(rowp, _pick(tag + ".a", bools), _pick(tag + ".b", bools), instantiation=tys.FunctionType([B, B], [B, B]),
+                   type_args=[tys.SequenceArg([tys.TypeTypeArg(B), tys.TypeTypeArg(B)])])
+        bools.append(n[1])
+        nodes.append(n)
     elif kind == 13:   # a wire crossing TWO region boundaries (into a case body of a conditional inside a nested DFG)
         w = _pick(tag + ".w", bools)
         with f.add_nested(qubit) as outer:
@@ -136,9 +143,9 @@ def h_is_bool(f, n):
 
 
 @lemma("C01", params=[(k,) for k in range(N_STEPS_KINDS)],
-       bounds="module programs of 2 (quick) / 3 (thorough) builder steps inside a function over 14 step kinds (custom op with unused output, linear "
+       bounds="module programs of 2 (quick) / 3 (thorough) builder steps inside a function over 15 step kinds (custom op with unused output, linear "
               "threading, tuple ops, Tag, constants, call, load_function + CallIndirect, nested DFG with an Ext wire, conditional, if/else, tail loop, "
-              "CFG with a Dom wire, a wire crossing two region boundaries, explicit state order); wires chosen by the solver; one task per first step; linear value consumed exactly once",
+              "CFG with a Dom wire, a wire crossing two region boundaries, a row-polymorphic call, explicit state order); wires chosen by the solver; one task per first step; linear value consumed exactly once",
        outside="longer programs; extension-delta / type-argument rules (not listed by the property)",
        opts={"max_paths": 200000, "timeout_s": 2500})
 def builder_programs_are_valid(first):
